@@ -11,7 +11,8 @@
      The environment decides what the grading step does: Return, or Raise(c, msg) for every class c of Errors!Tree
      and every outsider.  For grader kinds whose failure starts inside a user function (FormulaGrader / SumGrader
      with a failing user function) or inside an arithmetic operator, the two recasting layers of the expression
-     evaluator (MathExpression.eval_function, MathExpression.eval) sit between the origin and the wrapper.
+     evaluator (MathExpression.eval_function, MathExpression.eval) sit between the origin and the wrapper; numpy
+     floating-point flags enter through the process-wide error callback (NpHandler).
 
    TLC checks that the machine satisfies the property-level operator (Refines) and the laws below on every
    reachable state, and that every call ends (<>Finished under weak fairness).
@@ -82,6 +83,12 @@ RecastEval(o) == IF o.cls = "OverflowError" THEN Raised("CalcOverflowError", Lib
                  ELSE IF o.cls = "ZeroDivisionError" THEN Raised("CalcZeroDivisionError", LibMsg)
                  ELSE o
 
+\* numpy floating-point flags are turned into Python exceptions process-wide (np.seterrcall in expressions.py)
+NpHandler == "divide" :> "ZeroDivisionError" @@ "overflow" :> "OverflowError" @@ "invalid" :> "ValueError"
+\* where an arithmetic failure outside any function can start: Python float arithmetic, or a numpy flag
+ArithOrigins == {[src |-> "python", flag |-> "none", cls |-> "ZeroDivisionError"],
+                 [src |-> "python", flag |-> "none", cls |-> "OverflowError"]}
+                \cup {[src |-> "numpy", flag |-> f, cls |-> NpHandler[f]] : f \in DOMAIN NpHandler}
 \* SummationGraderBase.check: an IntegrationError is re-raised with an explanatory prefix (same class)
 Prefixed(m) == IF m # <<>> /\ m[1] = "w" THEN m ELSE <<"w">> \o m       \* adjacent text runs are one run
 RecastSum(o) == IF o.cls = "IntegrationError" THEN Raised("IntegrationError", Prefixed(o.msg)) ELSE o
@@ -143,8 +150,10 @@ Check == /\ pc = "check"
                /\ \E cl \in CheckFaults : \E m \in FaultMsgs(cl) :
                     origin' = Raised(cl, m) /\ Step("check", "evalfn") /\ UNCHANGED <<c, inner, esc>>
             \/ /\ Via[c.gk] = "arith"
-               /\ \E cl \in CheckFaults \cap {"ZeroDivisionError", "OverflowError"} :
-                    origin' = Raised(cl, <<>>) /\ inner' = Raised(cl, <<>>) /\ Step("check", "matheval")
+               /\ \E o \in ArithOrigins :
+                    /\ o.cls \in CheckFaults
+                    /\ origin' = [k |-> "raise", cls |-> o.cls, fam |-> FALSE, msg |-> <<>>, src |-> o.src, flag |-> o.flag]
+                    /\ inner' = Raised(o.cls, <<>>) /\ Step("check", "matheval")
                     /\ UNCHANGED <<c, esc>>
 
 EvalFn == /\ pc = "evalfn"
@@ -214,12 +223,18 @@ Refines == (Finished /\ ~InferFailed) => Result = Outward(c.debug, IF inner.k = 
 InferEscapesAsRaised == InferFailed => esc = Escape(inner.cls, TextMsg(inner.msg)) /\ ~Did("check")
 \* a failure that starts inside a function is always anticipated: student-facing, never the generic message, and a
 \* student-facing origin keeps class and message
-FnFaultAnticipated == (pc = "escaped" /\ origin.k = "raise" /\ ~c.debug)
+FnFaultAnticipated == (pc = "escaped" /\ origin.k = "raise" /\ ~c.debug /\ Via[c.gk] = "userfn")
                          => /\ esc.cls \in StudentFacing /\ esc.msg.t = "text"
                             /\ (origin.cls \in StudentFacing =>
                                   esc = Escape(origin.cls, TextMsg(Br(IF c.gk = "sumfn" /\ origin.cls = "IntegrationError"
                                                                       THEN Prefixed(origin.msg) ELSE origin.msg))))
                             /\ (origin.cls \notin StudentFacing => esc.cls \in CalcFamily)
+\* arithmetic failures: division by zero and overflow are anticipated wherever they start; numpy's "invalid value"
+\* (0/0 between arrays) is not, and ends as the generic message
+ArithFaults == (pc = "escaped" /\ origin.k = "raise" /\ ~c.debug /\ Via[c.gk] = "arith")
+                  => IF origin.cls \in {"ZeroDivisionError", "OverflowError"}
+                     THEN esc.cls \in {"CalcZeroDivisionError", "CalcOverflowError"} /\ esc.msg = TextMsg(LibMsg)
+                     ELSE esc.cls = "StudentFacingError" /\ esc.msg.t = "generic"
 \* the order of blocks
 TrailShape == Finished => /\ trail[1] = "start"
                           /\ Did("infer") => (IsItem(c.gk) /\ c.expect = "given" /\ ~c.answers)
